@@ -33,37 +33,40 @@ theorem evalPreSync_checkOnly (o : Oracle) (kw : Kwargs) (c : Contract) :
         · exact judge_checkOnly _ _ _ h
 
 theorem evalPreSync_false_iff (o : Oracle) (kw : Kwargs) (c : Contract) :
-    (evalPreSync o kw c).out = .ok false ↔ condTruthy o kw c = true := by
-  unfold evalPreSync condTruthy selectConditionKwargs
+    (evalPreSync o kw c).out = .ok false ↔ condTruthy false o kw c = true := by
+  unfold evalPreSync condTruthy selectConditionKwargs finalAns
   by_cases hm : (missingNames c.mandatory kw).isEmpty = true
   · by_cases hc : c.coroFn = true
     · simp [hm, hc]
     · simp only [hm, hc, if_true, Bool.not_eq_true] at *
-      simp only [pure_bind', Bool.false_eq_true, if_false, emit_bind_out, Bool.true_and, Bool.not_false]
+      simp only [pure_bind', Bool.false_eq_true, if_false, emit_bind_out, Bool.true_and]
       cases h : o.cond c.id with
-      | raises e => simp [judge]
+      | raises e => simp [judge, ansTruthy]
       | coro a => simp
       | val v t =>
         cases t with
-        | truthy => simp [judge]
-        | falsy => simp [judge]
-        | raises e => by_cases he : e.isException <;> simp [judge, he]
+        | truthy => simp [judge, ansTruthy]
+        | falsy => simp [judge, ansTruthy]
+        | raises e => by_cases he : e.isException <;> simp [judge, he, ansTruthy]
   · simp [hm]
 
 theorem evalPreSync_true_of_falsy (o : Oracle) (kw : Kwargs) (c : Contract)
-    (h : condFalsy o kw c = true) : (evalPreSync o kw c).out = .ok true := by
-  unfold condFalsy at h
+    (h : condFalsy false o kw c = true) : (evalPreSync o kw c).out = .ok true := by
+  unfold condFalsy finalAns at h
   unfold evalPreSync selectConditionKwargs
-  simp only [Bool.and_eq_true, Bool.not_eq_true'] at h
-  obtain ⟨⟨hm, hc⟩, ha⟩ := h
-  simp only [hm, hc, if_true, pure_bind', Bool.false_eq_true, if_false, emit_bind_out]
-  cases h : o.cond c.id with
-  | raises e => simp [h] at ha
-  | coro a => simp [h] at ha
-  | val v t =>
-    cases t with
-    | truthy => simp [h] at ha
-    | falsy => simp [judge]
-    | raises e => simp [h] at ha
+  simp only [Bool.and_eq_true] at h
+  obtain ⟨hm, ha⟩ := h
+  by_cases hc : c.coroFn = true
+  · simp [hc] at ha
+  · simp only [Bool.not_eq_true] at hc
+    simp only [hm, hc, if_true, pure_bind', Bool.false_eq_true, if_false, emit_bind_out] at ha ⊢
+    cases h : o.cond c.id with
+    | raises e => simp [h, ansFalsy] at ha
+    | coro a => simp [h] at ha
+    | val v t =>
+      cases t with
+      | truthy => simp [h, ansFalsy] at ha
+      | falsy => simp [judge]
+      | raises e => simp [h, ansFalsy] at ha
 
 end Icontract
